@@ -11,17 +11,18 @@ RULE = (
     "Part 'lists' (shards = length x first feature x 4 option settings): every ordered list of 1..3 features, each an interval over "
     "positions 1..5 (quick; 3-lists 1..4) / 1..6 (thorough) x seqid {c1,c2} x strand {+,-} (60 / 84 kinds); 1- and 2-lists also shifted "
     "across the first bin boundary, with always_return_list off, and with identical attributes on all features; attribute values "
-    "include signed and exponent-notation numbers, several spellings of one number and repeats. The real interfeatures() output is "
+    "include signed / exponent-notation numbers, several spellings of one number and repeats. Settings: defaults; new_featuretype + "
+    "numeric_sort; merge_attributes off yet update_attributes given; update_attributes forcing ID. The real interfeatures() output is "
     "compared with a reference (count, seqid, coordinates, featuretype, strand, merged attributes), each interfeature's bin must equal "
     "bins(); inputs unchanged; on sampled executions the database is unchanged. Part 'empty': list, tuple, exhausted generator and a "
     "query without hits x 4 settings yield nothing and do not raise. Part 'unstranded' (4 executions): a 3-exon transcript with strand "
-    "'.' or '?' x both selections: intron and site positions as usual, no site labelled five- or three-prime. Part 'introns' (shards = "
-    "blocks of exon sets): first transcript = every set of 1..3 exons with distinct starts over positions 1..6 (quick) / 1..8 "
-    "(thorough; also 4 exons over 1..6), 931 / 6742 sets; second transcript = 3 representative sets; x strand x exon line order x "
-    "always_return_list; a third transcript has only a CDS. create_introns (both selections, attributes, columns) and "
-    "create_splice_sites (positions, labels, distinct prefixed ids) are compared with the reference; database unchanged; after update() "
-    "adds a gene both calls are re-checked. Non-trivial = some consecutive pair touches/overlaps/changes seqid/differs in strand while "
-    "another has a gap (lists); the first transcript has >= 2 exons (introns); every empty and unstranded execution."
+    "'.' or '?' x both selections: usual intron and site positions, no five-/three-prime label. Part 'introns' (shards = blocks of exon "
+    "sets): first transcript = every set of 1..3 exons with distinct starts over positions 1..6 (quick) / 1..8 (thorough; also 4 exons "
+    "over 1..6), 931 / 6742 sets; second transcript = 3 representative sets; x strand x exon line order x always_return_list; a third "
+    "transcript has only a CDS. create_introns (both selections, attributes, columns) and create_splice_sites (positions, labels, "
+    "distinct prefixed ids; numeric_sort must reach the sites' attributes too) are compared with the reference; database unchanged; "
+    "after update() adds a gene both calls are re-checked. Non-trivial = some consecutive pair touches/overlaps/changes seqid/differs "
+    "in strand while another has a gap (lists); the first transcript has >= 2 exons (introns); every empty and unstranded execution."
 )
 ASSUMPTIONS = [
     "exons of one transcript have distinct starts (order among equal starts is unspecified)",
